@@ -192,6 +192,10 @@ def _parse_unit(text, base_dir=None):
                 elif k == "strip_logs":
                     ex.strip_logs = True
                     cur = None
+                elif k == "expand_ser_macros":
+                    # mechanical expansion of ser_multiread!/ser_multiwrite! (core/src/macros.rs), whatever their arguments
+                    ex.expand_ser_macros = True
+                    cur = None
                 elif k == "format_as":
                     # format_as `expr`: every format!(..) in the item (message payloads of error values) becomes expr
                     ma = re.match(r"`(.*)`\s*$", rest)
@@ -297,6 +301,71 @@ def _strip_log_macros(text):
         out.append(text[i])
         i += 1
     return "".join(out)
+
+
+def _split_top(s):
+    """split s at top-level commas (nesting in ([{ respected; s is masked-safe enough for macro argument lists)"""
+    parts, depth, cur = [], 0, []
+    for ch in s:
+        if ch in "([{":
+            depth += 1
+        elif ch in ")]}":
+            depth -= 1
+        if ch == "," and depth == 0:
+            parts.append("".join(cur).strip())
+            cur = []
+        else:
+            cur.append(ch)
+    if "".join(cur).strip():
+        parts.append("".join(cur).strip())
+    return parts
+
+
+def _expand_ser_macros(text):
+    """ser_multiread!(r, a, b(x)) => (r.a()?, r.b(x)?) ; ser_multiwrite!(w, [f, v], [g, u]) => w.f(v)?; w.g(u)?  (macro_rules in
+    core/src/macros.rs); returns (text, count)"""
+    out, i, n, cnt = [], 0, len(text), 0
+    msk = mask(text)
+    while i < n:
+        hit = None
+        for name in ("ser_multiread!", "ser_multiwrite!"):
+            if msk.startswith(name, i) and (i == 0 or not (msk[i - 1].isalnum() or msk[i - 1] == "_")):
+                hit = name
+        if hit:
+            j = i + len(hit)
+            while j < n and msk[j] in " \t\n":
+                j += 1
+            if j < n and msk[j] == "(":
+                depth, k = 0, j
+                while k < n:
+                    if msk[k] == "(":
+                        depth += 1
+                    elif msk[k] == ")":
+                        depth -= 1
+                        if depth == 0:
+                            break
+                    k += 1
+                args = _split_top(text[j + 1:k])
+                rw = args[0]
+                if hit == "ser_multiread!":
+                    calls = []
+                    for a in args[1:]:
+                        calls.append("%s.%s?" % (rw, a if a.endswith(")") else a + "()"))
+                    out.append("(" + ", ".join(calls) + ")")
+                else:
+                    calls = []
+                    for a in args[1:]:
+                        inner = a.strip()
+                        assert inner.startswith("[") and inner.endswith("]"), inner
+                        fv = _split_top(inner[1:-1])
+                        calls.append("%s.%s(%s)?" % (rw, fv[0], ", ".join(fv[1:])))
+                    out.append("; ".join(calls))
+                cnt += 1
+                i = k + 1
+                continue
+        out.append(text[i])
+        i += 1
+    return "".join(out), cnt
 
 
 def _replace_format_macros(text, repl):
@@ -510,6 +579,10 @@ def transform(ex, src):
         if t2 != text:
             record["transformations"].append("T3 log macros removed: %d" % t2.count("/* T3:"))
         text = t2
+    if getattr(ex, "expand_ser_macros", False):
+        text, nm = _expand_ser_macros(text)
+        if nm:
+            record["transformations"].append("T6 ser_multiread!/ser_multiwrite! expanded per their macro_rules definition: %d" % nm)
     if getattr(ex, "format_as", None):
         text, nf = _replace_format_macros(text, ex.format_as)
         if nf:
